@@ -98,3 +98,51 @@ func registerEnvStubs() {
 		}
 	}
 }
+
+// ---------- context.Context model: a chain of (key, value) nodes ----------
+
+type ctxNode struct {
+	parent   *ctxNode
+	key, val Iface
+}
+
+type ctxMethod struct {
+	n    *ctxNode
+	name string
+}
+
+var ctxMarker = types.NewNamed(types.NewTypeName(0, nil, "ctx", nil), types.NewStruct(nil, nil), nil)
+
+func ctxIface(n *ctxNode) Value { return Iface{T: ctxMarker, V: n} }
+
+func (e *Exec) callCtxMethod(m *ctxMethod, args []Value) Value {
+	switch m.name {
+	case "Value":
+		k := args[0].(Iface)
+		for n := m.n; n != nil; n = n.parent {
+			if n.key.T == nil {
+				continue
+			}
+			eq := equalsT(nil, n.key, k)
+			if !eq.conc() {
+				panic(abort("symbolic context key"))
+			}
+			if eq.b() {
+				return n.val
+			}
+		}
+		return Iface{}
+	case "Err":
+		return Iface{}
+	}
+	panic(abort("context method " + m.name))
+}
+
+func registerCtxStubs() {
+	externals["context.Background"] = func(e *Exec, c *frame, a []Value) Value { return ctxIface(&ctxNode{}) }
+	externals["context.TODO"] = externals["context.Background"]
+	externals["context.WithValue"] = func(e *Exec, c *frame, a []Value) Value {
+		parent, _ := a[0].(Iface).V.(*ctxNode)
+		return ctxIface(&ctxNode{parent: parent, key: a[1].(Iface), val: a[2].(Iface)})
+	}
+}
